@@ -62,7 +62,7 @@ def gen_series(rng, n, kind, missing_ok):
     nan_p = rng.pick((0.0, 0.1, 0.3, 1.0)) if rng.chance(0.7) else 0.0
     if kind == "inp":
         vals = wl.gen_values(rng, n, nan_p=nan_p)
-        carrier = rng.weighted([("ndarray", 5), ("list", 4), ("masked", 2 if missing_ok else 0), ("tuple", 1), ("readonly", 2), ("float32", 1), ("int_list", 1)])
+        carrier = rng.weighted([("ndarray", 5), ("list", 4), ("masked", 2 if missing_ok else 0), ("masked_nan", 2 if missing_ok else 0), ("tuple", 1), ("readonly", 2), ("float32", 1), ("int_list", 1)])
         if carrier == "int_list":
             vals = [None if v is None else float(int(v)) for v in vals]
         return {"carrier": carrier, "values": vals, "under": rng.pick((0.0, 4.0, -1e6))}
@@ -220,6 +220,14 @@ def build_series(spec):
     if c == "masked":
         mask = np.array([v is None for v in vals], dtype=bool)
         data = np.array([spec.get("under", 0.0) if v is None else v for v in vals], dtype="float64")
+        return np.ma.MaskedArray(data, mask=mask)
+    if c == "masked_nan":
+        # a masked array with a real mask array whose missing values are partly masked, partly plain NaN
+        miss = [i for i, v in enumerate(vals) if v is None]
+        mask = np.zeros(len(vals), dtype=bool)
+        mask[miss[::2]] = True
+        data = np.array([np.nan if v is None else v for v in vals], dtype="float64")
+        data[mask] = spec.get("under", 0.0)
         return np.ma.MaskedArray(data, mask=mask)
     if c == "dt64":
         return np.array(vals, dtype="int64").astype("datetime64[s]").astype("datetime64[ns]")
@@ -550,7 +558,7 @@ def candidates(scn):
                         c["ops"][i]["data"][k]["values"] = c["ops"][i]["data"][k]["values"][:cut]
                     yield c
             for k, spec in data.items():
-                if spec["carrier"] in ("list", "masked", "tuple", "readonly", "float32", "int_list"):
+                if spec["carrier"] in ("list", "masked", "masked_nan", "tuple", "readonly", "float32", "int_list"):
                     c = copy.deepcopy(scn)
                     c["ops"][i]["data"][k]["carrier"] = "ndarray"
                     yield c
